@@ -107,6 +107,8 @@ class Tr:
         if (isinstance(e, ast.Call) and isinstance(e.func, ast.Attribute) and isinstance(e.func.value, ast.Name)
                 and e.func.value.id == self.obj and e.func.attr in self.props and not e.args):
             return '(' + self.props[e.func.attr](self) + ')'
+        if isinstance(e, (ast.BinOp, ast.Attribute, ast.Name)):
+            return '(negb (%s =? (0)))' % self.expr(e, env)        # truthiness of an integer
         raise Untranslatable('test %s' % ast.dump(e)[:80])
 
     def body(self, stmts, env, boolean):
@@ -252,6 +254,54 @@ def adaptive_props():
     p['start_step'] = prop_attr('_start_step', 'BaseAdaptiveSupport', 'start_step')
     p['adaptation_duration'] = prop_attr('_adaptation_duration', 'BaseAdaptiveSupport', 'adaptation_duration')
     return p
+
+
+def prop_call_jump(tr):
+    """BaseProposal._call_jump(), inlined wherever `self._call_jump()` is tested"""
+    f = find_func('epsie/proposals/base.py', 'BaseProposal', '_call_jump')
+    t = Tr('BaseProposal', BASE_PROPS, ('start_step',))
+    e = t.body(f.body, {}, True)
+    tr.attrs |= t.attrs
+    return e
+
+
+def t_delegates(name, path, cls, fn, private):
+    """A public wrapper that either hands over to `self.<private>(..)` or returns a trivial value: the condition under which it
+    hands over.  Accepted: `if T: return X` followed by `return Y`, `if T: return X else: return Y`, `return X if T else Y`,
+    where exactly one of X, Y is the call of the private method."""
+    f = find_func(path, cls, fn)
+    props = dict(BASE_PROPS)
+    props['_call_jump'] = prop_call_jump
+    tr = Tr(cls, props, ('start_step',))
+    tr.locals = single_assignments(f)
+    b = [st for st in strip_doc(f.body)
+         if not (isinstance(st, ast.Assign) and len(st.targets) == 1 and isinstance(st.targets[0], ast.Name) and st.targets[0].id in tr.locals)]
+
+    def deleg(e):
+        while isinstance(e, ast.Name) and e.id in tr.locals:
+            e = tr.locals[e.id]
+        return (isinstance(e, ast.Call) and isinstance(e.func, ast.Attribute) and e.func.attr == private
+                and isinstance(e.func.value, ast.Name) and e.func.value.id == 'self')
+
+    def ret(stmts):
+        stmts = [st for st in stmts if not (isinstance(st, ast.Expr) and isinstance(st.value, ast.Constant))]
+        if len(stmts) == 1 and isinstance(stmts[0], ast.Return) and stmts[0].value is not None:
+            return stmts[0].value
+        raise Untranslatable('%s.%s: a branch is not a single return' % (cls, fn))
+    if len(b) == 2 and isinstance(b[0], ast.If) and not b[0].orelse:
+        test, x, y = b[0].test, ret(b[0].body), ret(b[1:])
+    elif len(b) == 1 and isinstance(b[0], ast.If) and b[0].orelse:
+        test, x, y = b[0].test, ret(b[0].body), ret(b[0].orelse)
+    elif len(b) == 1 and isinstance(b[0], ast.Return) and isinstance(b[0].value, ast.IfExp):
+        test, x, y = b[0].value.test, b[0].value.body, b[0].value.orelse
+    else:
+        raise Untranslatable('%s.%s is not a choice between self.%s(..) and a trivial value' % (cls, fn, private))
+    if deleg(x) == deleg(y):
+        raise Untranslatable('%s.%s: exactly one branch must hand over to self.%s' % (cls, fn, private))
+    t = tr.test(test, {})
+    tr.attrs |= {'_jump_interval', '_jump_interval_duration', '_nsteps', '?start_step'}
+    tr.attrs.discard('start_step')
+    return 'Definition %s %s : bool := %s.' % (name, tr.signature(), t if deleg(x) else '(negb %s)' % t)
 
 
 def t_fun(name, path, cls, fn, props, optional=(), boolean=False):
@@ -417,6 +467,8 @@ def targets():
         t2.attrs |= tr.attrs
         return tmpl % (t2.signature(), cj)
     add('src_update', upd)
+    add('src_jump_delegates', lambda: t_delegates('src_jump_delegates', 'epsie/proposals/base.py', 'BaseProposal', 'jump', '_jump'))
+    add('src_logpdf_delegates', lambda: t_delegates('src_logpdf_delegates', 'epsie/proposals/base.py', 'BaseProposal', 'logpdf', '_logpdf'))
     add('src_veitch_window', lambda: t_guard('src_veitch_window', 'epsie/proposals/normal.py', 'AdaptiveSupport', '_update', ad))
     add('src_at_window', lambda: t_guard('src_at_window', 'epsie/proposals/normal.py', 'ATAdaptiveSupport', '_update', ad))
     add('src_eig_window', lambda: t_guard('src_eig_window', 'epsie/proposals/eigenvector.py', 'AdaptiveEigenvectorSupport', '_update', ad))
